@@ -302,6 +302,18 @@ def cases(draw):
     return c
 
 
+# ------------------------------------------------------------------ coverage-guided (libFuzzer, fuzz/fuzz_maps.cpp, oracle "sum")
+from vlib import fuzzrun  # noqa: E402
+
+MAPS_CORPUS = [bytes(range(200)), bytes([0] * 64), bytes([255, 3, 128, 64] * 64), bytes([17, 200, 90] * 100) + bytes([1, 9, 2, 3, 1, 0])]
+run_fuzzsum = fuzzrun.make_runner("c01", "VERIF_FUZZMAPS", MAPS_CORPUS, max_len=4096, env_extra={"VERIF_MAPS_ORACLE": "sum"})
+
+def finalize(cov, agg, tier):
+    fuzzrun.finalize(cov, agg, "fuzzsum")
+
+
 def subs(tier):
-    return [Sub("sum", cases(), run_sum, quick=12000, thorough=120000),
+    return [Sub("fuzzsum", st.just({}), run_fuzzsum, quick=1, thorough=1, needs=("fuzzmaps",),
+                enum=lambda t: fuzzrun.campaigns(t, 12000, 1500000), max_wall={"quick": 400, "thorough": 3000}),
+            Sub("sum", cases(), run_sum, quick=12000, thorough=120000),
             Sub("colsum", cases(), run_col, quick=8000, thorough=80000)]
